@@ -44,12 +44,12 @@ ASSUMPTIONS = [
 REQUIRED_MONITORS = ["all_processes_succeed", "values_correct", "no_load_of_partial_library",
                      "final_name_published_only_by_rename",
                      "load_after_crash_succeeds", "gates_matched", "next_attempt_in_same_process_succeeds",
-                     "peer_unaffected_by_failed_build"]
+                     "peer_unaffected_by_failed_build", "first_edition_survives_second_build"]
 REQUIRED_BUCKETS = {
     "quick": ["schedule:2proc", "schedule:3proc", "kill:statement", "kill:cc_write1", "kill:cc_write2",
               "kill:cc_done", "kill:after_source_removal", "killcc:cc_write1", "killcc:cc_write2", "killcc:cc_done", "hazard_window_open_during_other_lookup", "publish:rename_observed",
               "first-use-of-missing-cache-directory:2proc", "first-use-of-missing-cache-directory:8proc", "retry:same-process",
-              "peer-holds-unopened-library-while-other-build-fails"],
+              "peer-holds-unopened-library-while-other-build-fails", "system-build:free", "system-build:killed", "two-editions-of-one-model-id"],
 }
 REQUIRED_BUCKETS["thorough"] = REQUIRED_BUCKETS["quick"] + ["stress:4", "stress:8", "stress:16"]
 WATCHDOG_S = {"quick": 1800, "thorough": 4*3600}
@@ -73,10 +73,10 @@ def base_env(cache, ctrl, tag, mode):
     return env
 
 
-def spawn(cache, ctrl, tag, mode, extra=None):
+def spawn(cache, ctrl, tag, mode, extra=None, model=None):
     env = base_env(cache, ctrl, tag, mode)
     env.update(extra or {})
-    return subprocess.Popen([core.PY, PROC, MODEL, mode], env=env, stdout=subprocess.PIPE,
+    return subprocess.Popen([core.PY, PROC, model or MODEL, mode], env=env, stdout=subprocess.PIPE,
                             stderr=subprocess.PIPE, start_new_session=True, text=True, cwd=HERE)
 
 
@@ -208,6 +208,10 @@ def gen_cases(tier, seed):
         for sig in ("SIGKILL", "EXIT1"):
             cases.append({"id": "peerfail/%s-%s" % (g, sig), "kind": "peerfail", "fail": "%s:%s" % (g, sig),
                           "group": "pf-%s-%s" % (g, sig), "cost": 2})
+    for md in ("free", "kill:cc_write1", "kill:cc_write2", "kill:cc_done"):
+        cases.append({"id": "system/%s" % md.replace(":", "-"), "kind": "system", "mode": md, "group": "sys-" + md, "cost": 2})
+    for n in (20, 150):
+        cases.append({"id": "editions/%d" % n, "kind": "editions", "n": n, "group": "ed-%d" % n, "cost": 3})
     for n in (1, 3):
         cases.append({"id": "xfs/%d" % n, "kind": "xfs", "nproc": n, "group": "xfs-%d" % n, "cost": 2})
     if tier == "thorough":
@@ -600,6 +604,67 @@ def run_xfs(case, rec):
         shutil.rmtree(work, ignore_errors=True)
 
 
+def run_editions(case, rec):
+    """Two generated sources of one model id in one cache: building the second does not take the first one's library
+    away from a process that holds it unopened."""
+    work = tempfile.mkdtemp(prefix="c18-", dir=os.environ.get("RTM_SCRATCH"))
+    cache, ctrl = os.path.join(work, "cache"), os.path.join(work, "ctrl")
+    os.makedirs(ctrl)
+    try:
+        r0 = result_of(spawn(os.path.join(work, "refcache"), ctrl, "R0", "plain", {"CC": "cc", "TMPDIR": work}, model="cylinder"), timeout=180)
+        if not r0.get("ok"):
+            rec.inconclusive("reference run for cylinder failed: %r" % (r0.get("error"),))
+            return
+        r = result_of(spawn(cache, ctrl, "E", "plain", {"CC": "cc", "TMPDIR": work, "RTM_C18_EDITIONS": str(case["n"])},
+                            model="cylinder"), timeout=240)
+        ok = bool(r.get("ok")) and r.get("Iq") == r0["Iq"]
+        rec.check("first_edition_survives_second_build", ok,
+                  {"second_edition_points": case["n"], "result": {k: r.get(k) for k in ("ok", "exit", "error", "Iq", "second_edition")},
+                   "reference": r0["Iq"], "cache": sorted(os.listdir(cache)) if os.path.isdir(cache) else []})
+        libs = [f for f in (os.listdir(cache) if os.path.isdir(cache) else []) if FINAL_NAME.match(f)]
+        rec.check("first_edition_survives_second_build", len(libs) >= 2, {"libraries_in_cache": libs})
+        r3 = result_of(spawn(cache, ctrl, "F", "plain", {"CC": "cc", "TMPDIR": work}, model="cylinder"), timeout=120)
+        rec.check("load_after_crash_succeeds", bool(r3.get("ok")) and r3.get("Iq") == r0["Iq"],
+                  {"after": "two editions built", "fresh": {k: r3.get(k) for k in ("ok", "exit", "error", "Iq")}})
+        rec.bucket("two-editions-of-one-model-id")
+        rec.set_shape(("editions", case["n"]), True)
+    finally:
+        shutil.rmtree(work, ignore_errors=True)
+
+
+def run_system(case, rec):
+    """The packaging build (make_dll(system=True), used by core.precompile_dlls) into a shared cache directory: the final
+    name appears only by rename, and after a kill of the builder at a compiler gate the next load succeeds."""
+    ref = reference()
+    work = tempfile.mkdtemp(prefix="c18-", dir=os.environ.get("RTM_SCRATCH"))
+    cache, ctrl = os.path.join(work, "cache"), os.path.join(work, "ctrl")
+    os.makedirs(ctrl)
+    try:
+        ino = Inotify(cache)
+        mode = case.get("mode", "free")
+        p = spawn(cache, ctrl, "S", mode, {"TMPDIR": work, "RTM_C18_SYSTEM": "1"})
+        r = result_of(p, timeout=180)
+        if mode == "free":
+            rec.check("all_processes_succeed", bool(r.get("ok")) and r.get("Iq") == ref,
+                      {"build": "system", "result": {k: r.get(k) for k in ("ok", "exit", "error", "Iq")}},
+                      key="C18/process-failed-under-concurrent-first-use")
+        else:
+            rec.seen("kill_point_reached", 1 if r.get("exit") == -signal.SIGKILL else 0)
+            if r.get("exit") != -signal.SIGKILL:
+                rec.inconclusive("system build was not killed at %s" % mode)
+        p2 = spawn(cache, ctrl, "F", "plain", {"CC": "cc", "TMPDIR": work})
+        r2 = result_of(p2, timeout=120)
+        rec.check("load_after_crash_succeeds", bool(r2.get("ok")) and r2.get("Iq") == ref,
+                  {"build": "system", "mode": mode, "cache": sorted(os.listdir(cache)) if os.path.isdir(cache) else [],
+                   "fresh": {k: r2.get(k) for k in ("ok", "exit", "error", "stderr", "Iq")}},
+                  key="C18/truncated-library-left-under-final-name")
+        judge_trace(rec, ino.stop(), {"build": "system", "mode": mode})
+        rec.bucket("system-build:" + ("free" if mode == "free" else "killed"))
+        rec.set_shape(("system", mode), True)
+    finally:
+        shutil.rmtree(work, ignore_errors=True)
+
+
 def run_retry(case, rec):
     ref = reference()
     work = tempfile.mkdtemp(prefix="c18-", dir=os.environ.get("RTM_SCRATCH"))
@@ -635,6 +700,10 @@ def run_case(case, rec):
         return run_retry(case, rec)
     if case["kind"] == "peerfail":
         return run_peerfail(case, rec)
+    if case["kind"] == "system":
+        return run_system(case, rec)
+    if case["kind"] == "editions":
+        return run_editions(case, rec)
     if case["kind"] == "xfs":
         return run_xfs(case, rec)
     if case["kind"] == "sched":
